@@ -284,12 +284,18 @@ class Flow:
             return self._try(s, state)
         if isinstance(s, ast.Break):
             if not self._loop_stack:
+                if hasattr(self.domain, "outer_breaks"):  # analysing a loop body alone
+                    self.domain.outer_breaks.append(state)
+                    return None
                 raise AnalysisError("break outside loop")
             top = self._loop_stack[-1]
             top["break"] = self.join(top["break"], state)
             return None
         if isinstance(s, ast.Continue):
             if not self._loop_stack:
+                if hasattr(self.domain, "outer_continues"):  # analysing a loop body alone
+                    self.domain.outer_continues.append(state)
+                    return None
                 raise AnalysisError("continue outside loop")
             top = self._loop_stack[-1]
             top["continue"] = self.join(top["continue"], state)
